@@ -22,6 +22,8 @@ NUM_DE = ["eins", "zwei", "drei", "vier", "fünf", "sechs", "sieben", "acht", "n
 
 def check(ctx, rep, tier):
     eng = get_engine(ctx)
+    from . import spellings
+    spellings.check(ctx, rep, "hour-word-spellings", lambda g: g.startswith("t_") or g in ("clock", "ampm"), floor=1)
     RELEVANT.names.clear()
     rep.describe("ampm-map", "for every clock rule with an am/pm group, on every path and "
                  "every (hour, minute, am/pm) the summary gives: absent -> h; am: 12 -> 0, "
@@ -253,7 +255,8 @@ def _latent(ctx, rep, eng, sweep):
     rep.add("latent-clock", cm.rel + "::ctparse_gen::option guards the rewrite", cm.where(gen), ok,
             "" if ok else "latent rewrite is not conditional on the latent_time option")
     # summary vs specification
-    step = max(1, len(sweep) // (200 if len(sweep) < 5000 else 600))
+    from .relspec import stride
+    step = stride(len(sweep), 200 if len(sweep) < 5000 else 600)
     tss = sweep[::step]
     n = 0
     bad = None
